@@ -28,7 +28,7 @@ import time
 
 from hypothesis import strategies as st
 
-from ..common import Violation, Collector, run_batches, guard, case_watchdog
+from ..common import Violation, Collector, run_batches, guard, case_watchdog, HarnessError
 from ..engines import peers, dialogue
 
 import pexpect
@@ -54,7 +54,8 @@ ESC = b'\x1d'
 
 def shards(tier):
     q = tier == 'quick'
-    return [{'kind': 'interact', 'n': 80 if q else 500} for _ in range(16)] + [{'kind': 'orphan', 'n': 6 if q else 60} for _ in range(4)]
+    return ([{'kind': 'interact', 'n': 80 if q else 500} for _ in range(16)] + [{'kind': 'orphan', 'n': 6 if q else 60} for _ in range(4)]
+            + [{'kind': 'flood', 'n': 6 if q else 60} for _ in range(2)])
 
 
 FILTERS = {
@@ -620,8 +621,99 @@ def check_orphan(case, col=None):
         col.case(case, True)
 
 
+@st.composite
+def flood_cases(draw):
+    return {'kind': 'flood', 'text_mode': draw(st.booleans()), 'use_poll': draw(st.booleans()),
+            'typed': draw(st.sampled_from(['', 'q', 'hello'])), 'input_filter': draw(st.booleans())}
+
+
+FLOOD_BLOCKS = 500
+
+
+def check_flood(case, col=None):
+    """"When the escape character is typed ... interact returns" - also while the child has output waiting at every
+    turn of the copy loop (a build log, `yes`, a pager on a slow line).  The child writes FLOOD_BLOCKS blocks of 1000
+    bytes and then a marker; the output filter is the slow side (4 ms per piece), so the child's descriptor is ready
+    in every round.  The escape character is typed once 10 kB are on the screen: interact() must be back before
+    the marker is shown, i.e. it may not copy the remaining ~490 kB first.  Bytes are counted, not seconds."""
+    prog = ("import os,time\nb=b'x'*999+b'\\n'\nfor i in range(%d): os.write(1,b)\nos.write(1,b'FLOOD-END\\n')\ntime.sleep(20)\n"
+            % FLOOD_BLOCKS)
+    um, us = os.openpty()
+    child = None
+    try:
+        distinctive_mode(us)
+        with StdoutSwap(us):
+            kw = {'timeout': 20, 'use_poll': case['use_poll']}
+            if case['text_mode']:
+                kw['encoding'] = 'utf-8'
+            child = pexpect.spawn(sys.executable, ['-c', prog], **kw)
+            child.STDIN_FILENO = us
+            child.STDOUT_FILENO = us
+            result = {}
+
+            def slow(b):
+                time.sleep(0.004)
+                return b
+
+            def run():
+                try:
+                    child.interact(escape_character=chr(29), output_filter=slow,
+                                   input_filter=((lambda b: b) if case['input_filter'] else None))
+                    result['ok'] = True
+                except BaseException as e:      # noqa
+                    result['exc'] = e
+            th = threading.Thread(target=run, daemon=True)
+            th.start()
+            seen = []
+            typed_at = None
+            end = time.time() + 60
+            while th.is_alive() and time.time() < end:
+                drain(um, seen, 0.005)
+                n = sum(len(x) for x in seen)
+                if typed_at is None and n >= 10000:
+                    os.write(um, case['typed'].encode() + b'\x1d')
+                    typed_at = n
+                if typed_at is not None and b'FLOOD-END' in b''.join(seen[-3:]):
+                    break
+                th.join(0.002)
+            drain(um, seen, 0.05)
+            shown = sum(len(x) for x in seen)
+            returned = not th.is_alive()
+            if 'exc' in result:
+                raise Violation('interact-raised:flood', 'interact() raised %r' % (result['exc'],))
+            if typed_at is None:
+                if returned:
+                    raise Violation('interact-returned-early', 'interact() returned after %d bytes of a %d byte flood, nothing '
+                                    'was typed' % (shown, FLOOD_BLOCKS * 1000))
+                raise HarnessError('flood: 10 kB were not shown within 60 s (%d bytes)' % shown)
+            flooded = b'FLOOD-END' in b''.join(seen)[typed_at:]
+            if not returned or flooded:
+                child.kill(9)
+                join_draining(th, um, seen, 10)
+                raise Violation('escape-not-honoured-under-output', 'the escape character was typed when %d bytes were on the '
+                                'screen; interact() went on to copy the rest of the child\'s output (%d bytes shown, end '
+                                'marker included) without reading the keyboard' % (typed_at, shown))
+    finally:
+        if child is not None:
+            peers.reap(child)
+        for fd in (um, us):
+            try:
+                os.close(fd)
+            except OSError:
+                pass
+    if col is not None:
+        col.label('escape-typed-while-child-floods')
+        col.case(case, True)
+
+
 def run_shard(spec, seed, idx, deadline_ts):
     col = Collector()
+    if spec.get('kind') == 'flood':
+        def fbody(case, c):
+            with case_watchdog(120, 'C15 interact, escape typed while the child floods'):
+                check_flood(case, c)
+        run_batches(fbody, flood_cases(), spec['n'], seed * 1000 + idx, col, batch=10, shrink=False, deadline_ts=deadline_ts)
+        return col
     if spec.get('kind') == 'orphan':
         def obody(case, c):
             with case_watchdog(60, 'C15 interact, child exits, terminal stays open'):
@@ -654,6 +746,8 @@ def replay_logging(case):
 def replay(case, spec=None):
     if case.get('kind') == 'orphan':
         return check_orphan(case)
+    if case.get('kind') == 'flood':
+        return check_flood(case)
     check_case(case, logs=case.get('logs'))
 
 
